@@ -743,7 +743,8 @@ func (d *Document) createWordFieldTOC(config *TOCConfig, entries []TOCEntry) []i
 	// 添加TOC域结束段落
 	endPara := &Paragraph{
 		Properties: &ParagraphProperties{
-			ParagraphStyle: &ParagraphStyle{Val: "2"},
+			// 标题1样式：在本库的样式表中其ID为 "Heading1"（"2" 是WPS文档中的编号，样式表里没有定义）
+			ParagraphStyle: &ParagraphStyle{Val: "Heading1"},
 			Spacing: &Spacing{
 				Before: "240",
 				After:  "0",
